@@ -150,6 +150,9 @@ pub fn resolve_once(
     is_last_iteration: bool)
     -> Result<asm::ResolutionState, ()>
 {
+    #[cfg(hlorenzi_customasm_verif)]
+    verif_trace::push(0, iteration_index, is_first_iteration, is_last_iteration, 0);
+
     if opts.debug_iterations
     {
         println!(
@@ -280,5 +283,59 @@ pub fn resolve_once(
         }
     }
 
+    #[cfg(hlorenzi_customasm_verif)]
+    verif_trace::push(
+        0,
+        iteration_index,
+        is_first_iteration,
+        is_last_iteration,
+        if let asm::ResolutionState::Resolved = resolution_state { 1 } else { 2 });
+
     Ok(resolution_state)
+}
+
+
+/// Verification hook: thread-local log of resolution passes.
+/// Each event is (level, iteration_index, is_first, is_last, state),
+/// where level 0 is the top-level loop and 1 an `asm` block loop, and
+/// state 0 = pass began, 1 = pass ended Resolved, 2 = pass ended Unresolved.
+#[cfg(hlorenzi_customasm_verif)]
+pub mod verif_trace
+{
+    pub type Event = (u8, usize, bool, bool, u8);
+
+    pub const MAX_EVENTS: usize = 4096;
+
+    thread_local!
+    {
+        static TRACE: std::cell::RefCell<(Vec<Event>, usize)> =
+            std::cell::RefCell::new((Vec::new(), 0));
+    }
+
+    pub fn push(
+        level: u8,
+        iteration_index: usize,
+        is_first: bool,
+        is_last: bool,
+        state: u8)
+    {
+        TRACE.with(|t|
+        {
+            let mut t = t.borrow_mut();
+            t.1 += 1;
+            if t.0.len() < MAX_EVENTS
+            {
+                t.0.push((level, iteration_index, is_first, is_last, state));
+            }
+        });
+    }
+
+    /// Returns the recorded events and the total count
+    /// (including dropped ones), and clears the log.
+    pub fn take() -> (Vec<Event>, usize)
+    {
+        TRACE.with(|t| std::mem::replace(
+            &mut *t.borrow_mut(),
+            (Vec::new(), 0)))
+    }
 }
